@@ -301,8 +301,11 @@ func (c *compiler) evalUpdateIndex(left, index, value interface{}) error {
 	switch rv.Kind() {
 	case reflect.Map:
 		mapType := rv.Type()
-		if index == nil || !reflect.TypeOf(index).AssignableTo(mapType.Key()) {
+		if index == nil || !reflect.TypeOf(index).AssignableTo(mapType.Key()) || !reflect.TypeOf(index).Comparable() {
 			return fmt.Errorf("cannot use %v (%T) as %s value in map index", index, index, mapType.Key())
+		}
+		if rv.IsNil() {
+			return fmt.Errorf("assignment to entry in nil map (%T)", left)
 		}
 		if value != nil && !reflect.TypeOf(value).AssignableTo(mapType.Elem()) {
 			return fmt.Errorf("cannot use '%v' (%T) as %s value in assignment", value, value, mapType.Elem())
@@ -312,6 +315,8 @@ func (c *compiler) evalUpdateIndex(left, index, value interface{}) error {
 		if i, ok := index.(int); ok {
 			if i < 0 || rv.Len()-1 < i {
 				err = fmt.Errorf("array index out of bounds, got index %d, while array size is %v", i, rv.Len())
+			} else if !rv.Index(i).CanSet() {
+				err = fmt.Errorf("cannot assign to an element of %T (not addressable)", left)
 			} else {
 				elemType := reflect.TypeOf(left).Elem()
 				if value == nil {
@@ -347,8 +352,8 @@ func (c *compiler) evalAccessIndex(left, index interface{}, node *ast.IndexExpre
 	rv := reflect.ValueOf(left)
 	switch rv.Kind() {
 	case reflect.Map:
-		if index == nil {
-			return nil, fmt.Errorf("cannot use nil as %s value in map index", reflect.TypeOf(left).Key())
+		if index == nil || !reflect.TypeOf(index).Comparable() {
+			return nil, fmt.Errorf("cannot use %v (%T) as %s value in map index", index, index, reflect.TypeOf(left).Key())
 		}
 		mapKeyType := reflect.TypeOf(left).Key().Kind()
 		keyType := reflect.TypeOf(index).Kind()
@@ -540,6 +545,10 @@ func (c *compiler) arrayOperator(l interface{}, r interface{}, op string) (inter
 	var err error
 	switch op {
 	case "+":
+		if reflect.TypeOf(l).Kind() != reflect.Slice {
+			// arrays cannot be appended to
+			return nil, fmt.Errorf("unkown operator (%s) on %T and %T ", op, l, r)
+		}
 		elemType := reflect.TypeOf(l).Elem()
 		if elemType.Kind() != reflect.Interface {
 			t := reflect.ValueOf(r).Type()
